@@ -178,31 +178,37 @@ CLAIMS = {
              "3805 / 46283 / 222954 reachable states for N = 4 / 5 / 6, all predicates hold.",
         design_ref="DESIGN.md section 6 (C05)"),
     "C12": dict(
-        text="Proved in Lean for every N: fallback_ignores / blStatus_ignores / fallback_only_confirmed / "
-             "blStatus_only_pending (parity, in-progress, aborted and rejected slots never influence either query, "
-             "wherever they lie), seq_orders_confirmation (under the sequence invariant, ring offset orders sequence "
-             "numbers), life_refines_partial (given the ghost/header consistency LifeInv and at most one pending image, "
-             "the bootloader query answers copy-incomplete / load-unacknowledged / idle and the fallback query the most "
-             "recently confirmed slot exactly as the lifecycle says). On the real code: after every step of the ring "
-             "histories both queries are compared with a lifecycle oracle kept by the harness.",
-        note="life_refines_partial takes LifeInv as hypothesis: its inductive preservation is not proved; it is checked "
-             "on every reachable state of the machine's closure for N = 4..7 (model-checking support) and by the D6 "
-             "oracle on the implementation. fallback_firmware_slot does not look at the header kind (no reachable state "
-             "has a confirmed parity slot).",
+        text="Proved in Lean for every N >= 4 and every reachable state of the header-level machine Fuota.Slots (whose "
+             "transitions are defined through the validated model functions; crash prefixes of start, complete, cancel and "
+             "recovery included): life_refines (the bootloader query answers copy-incomplete for exactly the CopyPending "
+             "firmware slot, load-unacknowledged for the AckPending one, idle otherwise; the fallback query returns the "
+             "most recently confirmed slot or none), via the inductive invariant Inv1 (lifeInv_preserved, "
+             "reachable_lifeInv: ghost lifecycle = headers, at most one pending image, pending newer than every confirmed "
+             "image), seq_orders_confirmation_reachable (confirmation order = sequence order); for all header "
+             "arrangements: fallback_ignores / blStatus_ignores / fallback_only_confirmed / blStatus_only_pending (parity, "
+             "in-progress, aborted, rejected slots never influence either query). On the real code: after every step of "
+             "the ring histories both queries (the fallback slot observed through the returned handle) are compared "
+             "with a lifecycle oracle kept by the harness.",
+        note="No-wrap assumption SeqRoom. The machine enforces the property's proviso (an update is completed only when "
+             "nothing is pending). fallback_firmware_slot does not look at the header kind (no reachable state has a "
+             "confirmed parity slot). Native closure of the machine (N = 4..6 per run) remains as model-checking support.",
         design_ref="DESIGN.md section 6 (C12)"),
     "C13": dict(
-        text="Proved in Lean for every N and every header arrangement: cancel_no_pending, recover_none_no_pending, "
-             "recover_some_only_pair (after recovery only the returned firmware/parity pair reads in progress, and it is "
-             "an in-progress firmware + parity pair), recover_preserves_images / cancel_preserves_images (no crash "
-             "prefix of either addresses a confirmed, rejected or ack-pending slot), recover_idempotent / "
-             "cancel_idempotent (a second call returns the same answer with no effect); remediation_order_chimera_witness "
-             "(decide, N = 6: with the pinned single-pass remediation a power loss inside recovery leads to a session "
-             "assembled from two different updates) and remediation_order_repaired. On the real code: ring histories and "
-             "crash-inside-every-operation scenarios with header post-conditions, protected-slot and no-chimera oracles.",
-        note="'Returns a session iff the latest start succeeded and is live' and 'no chimera' are not proved "
-             "inductively; they are checked on every reachable state of the machine's closure (N = 4..7, crash prefixes "
-             "inside start, complete, remediation, cancel) and by the harness oracle; the chimera path found that way "
-             "was replayed on the real code (corpus/d6.txt) and repaired in /repo.",
+        text="Proved in Lean. For every N and every header arrangement: cancel_no_pending, recover_none_no_pending, "
+             "recover_some_only_pair, recover_preserves_images / cancel_preserves_images (no crash prefix addresses a "
+             "confirmed, rejected or ack-pending slot), recover_idempotent / cancel_idempotent. For every N >= 4 and every "
+             "reachable state of the machine (two-pass remediation, erase-newer-first start; crash prefixes everywhere): "
+             "the inductive invariant Inv2 (pairInv_preserved, reachable_inv2), no_chimera (the returned pair was written "
+             "by one start attempt), recover_only_live_session (a returned session is a live one and equals the latest "
+             "successful start if that is live), recover_returns_latest / recover_iff_live_session (if the latest start "
+             "succeeded and was neither completed nor cancelled, recovery returns exactly that pair). "
+             "remediation_order_chimera_witness (decide, N = 6) shows the pinned single-pass remediation violates it; "
+             "remediation_order_repaired. On the real code: ring histories and crash-inside-every-operation scenarios "
+             "with header post-condition, protected-slot and no-chimera oracles; the chimera path is a corpus scenario.",
+        note="No-wrap assumption SeqRoom; GeomOK (accepted geometry, capacity <= 2048) for the 'returns latest' direction. "
+             "Without a 'latest successful start' recovery may legitimately return an older live pair (e.g. after an "
+             "interrupted reuse-start); hence the two halves instead of a literal iff. Defect found by the machine's "
+             "closure, replayed on the real code and repaired in /repo: remediation erased before it aborted.",
         design_ref="DESIGN.md section 6 (C13)"),
     "C17": dict(
         text="Proved in Lean over the L2 model, in which every Rust panic site is the outcome `panic`: "
@@ -272,9 +278,13 @@ CLAIMS = {
              "Both real crates are fed the same sessions (losses, orders, duplicates, reboots) and compared with both "
              "models call by call; the oracle is an independent peeling decoder; the naive back-end additionally with a "
              "power loss at every mutating-op boundary.",
-        note="The _partial theorems are about the mask-level machine: that after the programs of a delivery the status "
-             "tables read as the masks of Abs.deliver is checked by the correspondence suite, not proved. Defects fixed "
-             "in /repo: naive parity count not clamped; deprecated crate's duplicate check read 256 bytes.",
+        note="Flash level, naive back-end: naive_start_establishes + naive_handle_segment_refines + complete_iff_peel / "
+             "complete_iff_peel_session are full theorems (every genuine fragment is accepted, the session invariant NInv "
+             "is kept, completion exactly at the peeling closure). The comparison with the deprecated crate is "
+             "naive_eq_orig_model_partial: the original side is its mask-level machine (its flash-level refinement is not "
+             "proved; D8 compares the two crates on the same deliveries). Row existence is a hypothesis of the session "
+             "theorems (C10's termination provides it without force-full-r). Defects fixed in /repo: naive parity count "
+             "not clamped; deprecated crate's duplicate check read 256 bytes.",
         design_ref="DESIGN.md section 6 (C19)"),
     "C20": dict(
         text="Proved in Lean for every ring size 3..6, rotation, fill level and start value (sequence numbers modulo "
@@ -290,9 +300,10 @@ CLAIMS = {
              "slot), plus decide-witnesses for the two pinned defects (write_beyond_slot_witness, "
              "app_status_error_witness). On the real code: every consistent ring state for N = 3..6 x 8 start values, "
              "power loss at every operation of start, fragment indices swept over the accepted range.",
-        note="start_places_partial / app_status_resumes_partial: the step 'erase + 28-byte header program turns the "
-             "headers read back into putHeader …' (the C11 round trip on an erased slot) is a hypothesis, checked by the "
-             "correspondence suite. Defects fixed in /repo: range check ignoring the data-region offset; app_boot_status "
+        note="start_places and app_status_resumes are full flash-level theorems (erase + header program read back through "
+             "C11's round trip; abort / erase leave nothing in progress); the 'resumes when there is one' direction needs "
+             "the two status tables to hold only 0x33 / 0xFF bytes (the code reports idle on a corrupt table). Defects "
+             "fixed in /repo: range check ignoring the data-region offset; app_boot_status "
              "returning an error forever after a power loss inside start; start accepting unrepresentable geometries.",
         design_ref="DESIGN.md section 6 (C20)"),
 }
